@@ -154,7 +154,6 @@ func fileFamily() firstUse {
 	}
 }
 
-
 // ---- (e) extension types ---------------------------------------------------------------
 
 type extState struct {
